@@ -110,6 +110,9 @@ var c08Tpls = []c08Tpl{
 
 func (p c08) Run(w *mon.Worker, idx int) mon.Result {
 	r := w.Rand(idx)
+	if idx%8 == 5 {
+		return c08AnchorCase(w, r)
+	}
 	pr := gen.Default()
 	pr.NoBigInt, pr.SmallInts = true, true
 	pr.MaxDepth = 2 + r.IntN(3)
